@@ -11,6 +11,8 @@
 //	encb <cells|ss> <caps> <cell>*            impl = hex of the exact string the real producer wrote (byte level)
 //	decb <cells|ss> <style> <hex> <table>     impl = cells the real parser returned for that exact string; table =
 //	                                          rune length of the first grapheme cluster (uniseg) of the suffix at every rune offset
+//	decbl <style> <hex url> <hex params> <hex> <table>   NewStyledString on that exact string with a default style that carries
+//	                                          the given hyperlink; impl = the cells with their hyperlinks (lcell format)
 //
 // cell = hex(grapheme):fg,bg,ul,ulstyle,attr   tok = S<params text> | T<hex(grapheme)>
 // caps bit 0 = rgb, bit 1 = styledUnderlines, bit 2 = VAXIS_FORCE_LEGACY_SGR applied.
@@ -435,6 +437,27 @@ func (e *env) decb(which string, dflt vaxis.Style, s string) {
 	e.r.Count("decb:" + which)
 }
 
+// decbl emits the byte-level case with hyperlinks for the exact string s (NewStyledString only).
+func (e *env) decbl(dflt vaxis.Style, s string) {
+	if !utf8.ValidString(s) || !utf8.ValidString(dflt.Hyperlink) || !utf8.ValidString(dflt.HyperlinkParams) {
+		return
+	}
+	e.emit(fmt.Sprintf("decbl %s %s %s %s %s", styleStr(dflt), hexOrDash(dflt.Hyperlink), hexOrDash(dflt.HyperlinkParams),
+		hexOrDash(s), clusterTable(s)))
+	e.r.Count("decbl")
+}
+
+func (e *env) doDecBL(dflt vaxis.Style, s string) (res string) {
+	panicked, msg := hx.Guard(func() {
+		res = lcellsStr(e.plain.NewStyledString(s, dflt).Cells)
+	})
+	if panicked {
+		e.r.Count("panic:decbl:" + strings.SplitN(msg, "[", 2)[0])
+		return "panic"
+	}
+	return res
+}
+
 func lcellStr(c vaxis.Cell) string {
 	return hexOrDash(c.Grapheme) + "/" + styleStr(c.Style) + "/" + hexOrDash(c.Hyperlink) + "/" + hexOrDash(c.HyperlinkParams)
 }
@@ -512,6 +535,19 @@ func (e *env) exec(op []string) (string, bool) {
 			return "", false
 		}
 		return e.doEncB(op[1], caps, cells), true
+	case "decbl":
+		if len(op) != 6 {
+			return "", false
+		}
+		st, ok := parseStyle(op[1])
+		url, ok1 := unhex(op[2])
+		ps, ok2 := unhex(op[3])
+		str, ok3 := unhex(op[4])
+		if !ok || !ok1 || !ok2 || !ok3 {
+			return "", false
+		}
+		st.Hyperlink, st.HyperlinkParams = url, ps
+		return e.doDecBL(st, str), true
 	case "decb":
 		if len(op) != 5 {
 			return "", false
@@ -842,6 +878,35 @@ func (e *env) genRt(rng *gen.Rng) {
 		}
 		e.decb("cells", vaxis.Style{}, str)
 		e.decb("ss", vaxis.Style{}, str)
+		// NewStyledString with the hyperlink fields on the same exact string (model: newStyledStringBL)
+		e.decbl(vaxis.Style{}, str)
+		if i%5 == 0 {
+			e.decbl(vaxis.Style{Hyperlink: "http://d", HyperlinkParams: "id=d", Attribute: vaxis.AttrBold}, str)
+		}
+	}
+	// hand-made strings around the hyperlink state of NewStyledString: what restores the default's link (ESC[m, "0"),
+	// what does not (a 0 used up by a legacy colour form), OSC 8 without ';' / without ST / empty, links and text mixed
+	linkStrs := []string{
+		"\x1b]8;id=1;http://a\x1b\\a\x1b[mb\x1b]8;;\x1b\\c",
+		"\x1b]8;id=1;http://a\x1b\\a\x1b[0mb",
+		"\x1b]8;id=1;http://a\x1b\\a\x1b[1;0;3mb",
+		"\x1b]8;id=1;http://a\x1b\\a\x1b[38;5;0mb",
+		"\x1b]8;id=1;http://a\x1b\\a\x1b[38;2;0;0;0mb\x1b[48;5;0;0mc",
+		"\x1b]8;id=1;http://a\x1b\\a\x1b[38:5:0mb\x1b[00mc\x1b[;md",
+		"\x1b]8;nosemicolon\x1b\\a",
+		"\x1b]8;p;u;v;w\x1b\\a",
+		"\x1b]8;;http://never-terminated a",
+		"\x1b]8;\x1b\\a",
+		"\x1b]8;;\x1b\\",
+		"a\x1b]8;;u\x1b\\\x1b]8;q;v\x1b\\b\x1b]8;;\x1b\\c\x1b[m",
+		"\x1b]8;;u\x1bx\x1b\\a",
+		"\x1b]9;;u\x1b\\a",
+	}
+	for _, str := range linkStrs {
+		for _, d := range []vaxis.Style{{}, {Hyperlink: "http://d", HyperlinkParams: "id=d"}, {Foreground: vaxis.IndexColor(3), HyperlinkParams: "only-params"}} {
+			e.decbl(d, str)
+			r.Count("decbl-handmade")
+		}
 	}
 	// single transitions of one field, both directions, for both codecs
 	vals := []vaxis.Style{{}, {Foreground: vaxis.IndexColor(1)}, {Foreground: vaxis.IndexColor(9)}, {Foreground: vaxis.IndexColor(200)},
